@@ -90,6 +90,13 @@ fn chain_case(rng: &mut Rng, rec: &mut Rec) {
         cfg.orig.push(("host".into(), h.into_bytes()));
         rec.cov("original/explicit-host");
     }
+    if rng.chance(1, 16) {
+        // a request that carries a lot of other fields in front of its credentials
+        for k in 0..70 {
+            cfg.orig.push((format!("x-filler-{:02}", k), b"t0-filler".to_vec()));
+        }
+        rec.cov("original/seventy-fields-before-the-credentials");
+    }
     cfg.orig.push(("x-keep".into(), b"t0-keep".to_vec()));
     cfg.orig.push(("authorization".into(), b"t0-Bearer-secret".to_vec()));
     cfg.orig.push(("cookie".into(), b"t0-session=original".to_vec()));
@@ -115,6 +122,9 @@ fn chain_case(rng: &mut Rng, rec: &mut Rec) {
         rec.cov("original/despite-method-with-content-length");
     }
     let policy = if rng.chance(1, 2) { RedirectAuthHeaders::Never } else { RedirectAuthHeaders::SameHost };
+    // one chain in three: the caller decides afresh at every redirect (the policy is an argument of each follow)
+    let vary_policy = rng.chance(1, 3);
+    let mut created_with = policy;
     let original = split_uri(&cfg.uri);
     let hops = rng.usize_in(1, 4);
     rec.ev(|| format!("original: {} policy={:?}", cfg.describe(), policy));
@@ -144,7 +154,13 @@ fn chain_case(rng: &mut Rng, rec: &mut Rec) {
             rec.cov("redirected/despite-method");
         }
         rec.call();
-        let (head, followed) = match follow_one_head(flow, &cfg, &eff, &original, &hop, policy) {
+        let policy_now = if vary_policy {
+            rec.cov("policy/chosen-per-hop");
+            if rng.chance(1, 2) { RedirectAuthHeaders::Never } else { RedirectAuthHeaders::SameHost }
+        } else {
+            policy
+        };
+        let (head, followed) = match follow_one_head(flow, &cfg, &eff, &original, &hop, policy_now) {
             Ok(v) => v,
             Err(e) => {
                 let sig = if hop_i > 0 && e.contains("MethodForbidsBody") { "C13/content-length-leaked" } else { "C13/hop-failed" };
@@ -152,9 +168,11 @@ fn chain_case(rng: &mut Rng, rec: &mut Rec) {
             }
         };
         // the head of the request that was just sent (hop_i >= 1 means it was created by a redirect)
-        if hop_i > 0 && !check_head(&head, &cfg, &eff, policy, &original, hop_i, rec) {
+        // (judged by the policy given to the follow that created this request)
+        if hop_i > 0 && !check_head(&head, &cfg, &eff, created_with, &original, hop_i, rec) {
             return;
         }
+        created_with = policy_now;
         if let Some(prev) = &added_for_previous {
             if head.windows(prev.len()).any(|w| w == prev.as_bytes()) {
                 return rec.fail("C13/previous-requests-added-credential-carried-over", format!("request #{} carries {:?}, which the caller added to the request before it", hop_i, prev));
@@ -191,7 +209,7 @@ fn chain_case(rng: &mut Rng, rec: &mut Rec) {
     let written = if small { write_head_small(&mut f, rng) } else { write_head_big(&mut f) };
     match written {
         Ok(head) => {
-            check_head(&head, &cfg, &eff, policy, &original, hops, rec);
+            check_head(&head, &cfg, &eff, created_with, &original, hops, rec);
         }
         Err(e) => rec.fail("C13/redirected-request-refused", format!("{:?}", e)),
     }
@@ -291,6 +309,8 @@ impl Property for P {
         }
         v.push(("hop2/same-host/upgrade/same-host-policy".into(), 3));
         v.push(("non-absolute-original/followed".into(), 50));
+        v.push(("policy/chosen-per-hop".into(), 1000));
+        v.push(("original/seventy-fields-before-the-credentials".into(), 200));
         v.push(("hop1/same-host/same-scheme/never".into(), 20));
         v.push(("location-kind/abs-host-in-prefix-relation".into(), 100));
         v.push(("original/despite-method-with-content-length".into(), 100));
